@@ -117,6 +117,26 @@ def check(run):
             if o != "<crash>" and o.split(" ")[0] == "Ok":
                 oracle_fail.append((cfg, l, "an unclosed top-level container/string is never accepted", o[:100]))
         run.sample(dict(cfg=cfg, case=lines[len(lines) // 2]))
+    # NoMemory beyond the string capacity (C01_string_limit_is_exact / C10_long_string_is_NoMemory): a decoded string or
+    # key of 65535 bytes is accepted, one of 65536 bytes is read to its closing quote and refused with NoMemory
+    impl0 = vlib.need_harness("text_h", "10001")
+    lim = []
+    for n_, want in ((65535, "Ok"), (65536, "NoMemory"), (70000, "NoMemory")):
+        body = b"a" * n_
+        lim += [(b'"' + body + b'"', want), (b"'" + body + b"'", want), (b'["x","' + body + b'"]', want), (b'{"' + body + b'":1}', want),
+                (b"{" + body + b":1}", want), (b'"' + b"a" * (n_ - 1) + b'\\n"', want), (b'"' + b"a" * (n_ - 2) + b'\\u00e9"', want),
+                (b'  "' + body + b'" trailing', want)]
+    llines = ["J 10 - " + hx(t) for t, _ in lim]
+    lo, lcrash = vlib.run_sharded(impl0, llines, None, 600, ["CFG 10001"])
+    if lcrash:
+        run.violation("C10: library crashed on a string at the capacity limit: " + lcrash[:200], dict(kind="input", cfg="10001", lines=[llines[0][:100]], observed=lcrash[-2000:]))
+    for (t, want), l, o in zip(lim, llines, lo):
+        run.count(("10001", "limit", len(t), t[:6]))
+        if o != "<crash>" and o.split(" ")[0] != want:
+            oracle_fail.append(("10001", l[:120] + "...(%d bytes)" % len(t), want + " (strings and keys of at most 65535 bytes fit; longer ones are NoMemory)", o[:80]))
+    if thorough:
+        mism, _, _ = vlib.correspond(run, model, impl0, llines[:4] + llines[8:12], "10001", "string capacity limit", timeout=3000)
+        all_mism += [("10001", m) for m in mism]
     run.cov["rule"] = ("bounded-exhaustive: every sequence of at most %d tokens over %d JSON tokens, plus random longer sequences, mutations and truncations of valid "
                        "texts, dialect extensions, every proper prefix of valid containers/strings; configurations %s (unicode comments nan inf use_double); oracle rules: "
                        "whitespace-only => EmptyInput, Python-json-accepted => Ok, NaN/Infinity/comments only when enabled, unclosed never Ok; model vs library on all; "
